@@ -63,6 +63,53 @@ def mask(nb, ignored):
     return nb
 
 
+ALL_PATHS = [(c, p) for c in CATS for p in CAT_PATHS[c]]
+
+
+def in_paths(paths, path):
+    for c, p in ALL_PATHS:
+        if p in paths and (path == p or path.startswith(p + '/')):
+            return c
+    return None
+
+
+def mask_paths(nb, paths):
+    nb = copy.deepcopy(nb)
+    for p in paths:
+        parts = p.strip('/').split('/')
+        if parts == ['metadata']:
+            nb.pop('metadata', None)
+        elif len(parts) == 3:
+            for c in nb.get('cells', []):
+                c.pop(parts[2], None)
+        elif len(parts) == 5:
+            for c in nb.get('cells', []):
+                for o in c.get('outputs', []):
+                    o.pop(parts[4], None)
+    return nb
+
+
+def prop_paths(paths, mode):
+    """the Ignore mapping naming individual paths (not whole categories): nothing at or below an ignored path is
+    reported, and the patched notebook equals the target outside the ignored paths"""
+    def check(ctx, a, b, d, m_patch, base):
+        base = dict(base, ignored_paths=list(paths), mode=mode)
+        leaks = []
+        for p, e in op_paths(d):
+            c = in_paths(paths, p)
+            if c is not None and not any(p.startswith(q + '/') for q, _ in leaks):
+                leaks.append((p, e))
+                ctx.violation('diff reports %s at %s although the Ignore mapping names %s (%s)'
+                              % (e['op'], p, [q for q in paths if p == q or p.startswith(q + '/')], mode),
+                              dict(base, kind='leak', leak_path=p, leak_op=e['op'], category=c, diff=enc_diff(d)))
+        if 'ok' not in m_patch:
+            ctx.violation('independent patcher rejects the diff: %s' % m_patch, dict(base, kind='model-patch-rejects', diff=enc_diff(d)))
+        elif canon(mask_paths(dec(m_patch['ok']), paths)) != canon(mask_paths(b, paths)):
+            ctx.violation('patched notebook differs from the target outside the ignored paths %s (%s)' % (paths, mode),
+                          dict(base, kind='unfaithful', diff=enc_diff(d), got=m_patch['ok']))
+    return check
+
+
 def ignore_mapping(ignored):
     m = {}
     for c in ignored:
@@ -120,6 +167,8 @@ class Configured:
             json.dump({'NbDiff': {c: False for c in ign}}, open('nbdime_config.json', 'w'))
         elif self.mode == 'cfg-map':
             json.dump({'NbDiff': {'Ignore': ignore_mapping(ign)}}, open('nbdime_config.json', 'w'))
+        elif self.mode == 'cfg-paths':
+            json.dump({'NbDiff': {'Ignore': {p: True for p in ign}}}, open('nbdime_config.json', 'w'))
         elif self.mode == 'cfg-keys':
             json.dump({'NbDiff': {'Ignore': keys_mapping(ign)}}, open('nbdime_config.json', 'w'))
         elif self.mode == 'keys+D':
@@ -264,7 +313,7 @@ def lean_tables(tables):
 
 def run(ctx):
     ctx.cov['rule'] = ('all 64 subsets of the six categories x the ways to specify them (negative flags, positive flags, '
-                       'config booleans, config Ignore mapping) through the real nbdiff parser glue, x generated notebook pairs '
+                       'config booleans, config Ignore mapping by category, by key list, and by individual path) through the real nbdiff parser glue, x generated notebook pairs '
                        '(random edits, and edits confined to the ignored categories); non-trivial = notebooks differ; '
                        'distinct by (subset, mode, pair)')
     vlib.audit(ctx, 'NbdimeProofs', THEOREMS)
@@ -301,6 +350,20 @@ def run(ctx):
             with Configured(mode, ignored):
                 mism += c01.check_cases(ctx, cases, prop=prop(ignored, mode))
             ctx.count('mode:' + mode)
+    # Ignore mappings that name individual paths of a category (e.g. only the metadata of outputs)
+    for k in range(24 if ctx.tier == 'quick' else 400):
+        # container-valued paths only: `true` on a scalar path (ids, execution counts) has no differ to replace,
+        # nbdime's own tables use key lists on the parent for those (finding F-ign-id covers the id case)
+        paths = [p for _c, p in ALL_PATHS if not p.endswith(('/id', '/execution_count')) and rng.random() < 0.35] \
+            or ['/cells/*/outputs/*/metadata']
+        cases = []
+        for _ in range(2):
+            a = gen_nb.gen_notebook(rng, ncells=rng.choice([2, 3, 4]))
+            b = edit_only_ignored(rng, a, [c for c in CATS if c != 'sources' and rng.random() < 0.6] or ['metadata'])
+            cases.append(('path-mapping', a, b, ['path-mapping']))
+        with Configured('cfg-paths', paths):
+            mism += c01.check_cases(ctx, cases, prop=prop_paths(paths, 'cfg-paths'))
+        ctx.count('mode:cfg-paths')
     ctx.cov['correspondence_mismatches'] = len(mism)
     if not ok and not ctx.violations:
         ctx.violation('generated obligation C14.tableOk over the extracted ignore tables no longer checks: %s' % table_broken,
@@ -315,7 +378,10 @@ def run(ctx):
 def replay(path):
     data = json.load(open(path))['data']
     ctx = vlib.Ctx('C14', 'quick', 0)
-    if 'a' in data and 'ignored' in data:
+    if 'a' in data and 'ignored_paths' in data:
+        with Configured(data['mode'], data['ignored_paths']):
+            c01.check_cases(ctx, [('replay', dec(data['a']), dec(data['b']), ['replay'])], prop=prop_paths(data['ignored_paths'], data['mode']))
+    elif 'a' in data and 'ignored' in data:
         with Configured(data['mode'], data['ignored']):
             c01.check_cases(ctx, [('replay', dec(data['a']), dec(data['b']), ['replay'])], prop=prop(data['ignored'], data['mode']))
     for what, p, found in ctx.violations:
